@@ -10,6 +10,8 @@ import PestModel.Drv.Text
 import PestModel.Drv.Pratt
 import PestModel.Drv.World
 import PestModel.Drv.CharSet
+import PestModel.Drv.Pairs
+import PestModel.Drv.Hyps
 
 open Pest
 
@@ -122,18 +124,10 @@ def handle (sess : Session) (line : String) : Session × String :=
     match handleCore sess toks with
     | some r => r
     | none =>
-      match handleText toks with
+      match (handlePairs sess toks <|> handleHyps sess toks <|> handleText toks <|> handlePratt toks <|> handleWorld toks
+              <|> handleCharSet toks) with
       | some r => (sess, r)
-      | none =>
-        match handlePratt toks with
-        | some r => (sess, r)
-        | none =>
-          match handleWorld toks with
-          | some r => (sess, r)
-          | none =>
-            match handleCharSet toks with
-            | some r => (sess, r)
-            | none => (sess, "bad-request:" ++ cmd)
+      | none => (sess, "bad-request:" ++ cmd)
 
 end Drv
 
